@@ -1069,4 +1069,298 @@ func unexpectedStatus(code int, url string) error {
 	}
 
 	data, err := io.ReadAll(resp.Body)`},
+	// inverted branch (time classification)
+	{Name: "b-order-inverted-not-after", File: "replication/search.go",
+		Find: `		if timestamp.After(split.Timestamp) {
+			lower = split
+		} else {
+			upper = split
+		}
+`,
+		Replace: `		if !timestamp.After(split.Timestamp) {
+			upper = split
+		} else {
+			lower = split
+		}
+`},
+	// mirrored comparison (s.Before(t) for t.After(s))
+	{Name: "b-order-before-mirrored", File: "replication/search.go",
+		Find: `		if timestamp.After(split.Timestamp) {
+			lower = split
+		} else {
+			upper = split
+		}
+`,
+		Replace: `		if split.Timestamp.Before(timestamp) {
+			lower = split
+		} else {
+			upper = split
+		}
+`},
+	// if <-> tagless switch, Compare instead of After
+	{Name: "b-order-compare-switch", File: "replication/search.go",
+		Find: `		if timestamp.After(split.Timestamp) {
+			lower = split
+		} else {
+			upper = split
+		}
+`,
+		Replace: `		switch {
+		case timestamp.Compare(split.Timestamp) > 0:
+			lower = split
+		default:
+			upper = split
+		}
+`},
+	// value read into a local, split comparison (Equal || After), swapped branches
+	{Name: "b-order-local-equal-or-after", File: "replication/search.go",
+		Find: `		if timestamp.After(split.Timestamp) {
+			lower = split
+		} else {
+			upper = split
+		}
+`,
+		Replace: `		ts := split.Timestamp
+		if ts.Equal(timestamp) || ts.After(timestamp) {
+			upper = split
+		} else {
+			lower = split
+		}
+`},
+	// extract helper (one-line predicate), early continue
+	{Name: "b-order-predicate-helper", File: "replication/search.go",
+		Find: `		// set the new boundary
+		if timestamp.After(split.Timestamp) {
+			lower = split
+		} else {
+			upper = split
+		}
+	}
+
+	// timestamp is now between lower and upper, we want to return the upper.
+	return upper, nil
+}
+`,
+		Replace: `		// set the new boundary
+		if writtenBefore(split, timestamp) {
+			lower = split
+			continue
+		}
+
+		upper = split
+	}
+
+	// timestamp is now between lower and upper, we want to return the upper.
+	return upper, nil
+}
+
+// writtenBefore reports whether the state was written strictly before t.
+func writtenBefore(s *State, t time.Time) bool {
+	return t.After(s.Timestamp)
+}
+`},
+	// extract helper (one-line predicates in the loop conditions, negated)
+	{Name: "b-search-predicate-helpers", File: "replication/search.go",
+		Find: `func findInRange(ctx context.Context, s *stater, lower, upper *State, timestamp time.Time) (*State, error) {
+	// we do a binary search through the range to find the sequence number
+	for lower.SeqNum+1 < upper.SeqNum {
+		// could do better here
+		splitID := (lower.SeqNum + upper.SeqNum) / 2
+
+		split, err := s.State(ctx, splitID)
+		if err != nil && !NotFound(err) {
+			return nil, err
+		}
+
+		if split == nil {
+			// file missing, search the next towards lower
+			sID := splitID - 1
+
+			for split == nil && lower.SeqNum < sID {
+				split, err = s.State(ctx, sID)
+				if err != nil && !NotFound(err) {
+					return nil, err
+				}
+
+				sID--
+			}
+		}
+
+		if split == nil {
+			// still missing? search the next towards upper
+			sID := splitID + 1
+
+			for split == nil && sID < upper.SeqNum {
+				split, err = s.State(ctx, sID)
+				if err != nil && !NotFound(err) {
+					return nil, err
+				}
+
+				sID++
+			}
+		}
+
+		if split == nil {
+			// nothing between lower and upper, so upper is
+			// the first state at or after the timestamp.
+			return upper, nil
+		}
+
+		// set the new boundary
+		if timestamp.After(split.Timestamp) {
+			lower = split
+		} else {
+			upper = split
+		}
+	}
+
+	// timestamp is now between lower and upper, we want to return the upper.
+	return upper, nil
+}
+`,
+		Replace: `func findInRange(ctx context.Context, s *stater, lower, upper *State, timestamp time.Time) (*State, error) {
+	// we do a binary search through the range to find the sequence number
+	for !adjacent(lower, upper) {
+		// could do better here
+		splitID := (lower.SeqNum + upper.SeqNum) / 2
+
+		split, err := s.State(ctx, splitID)
+		if err != nil && !NotFound(err) {
+			return nil, err
+		}
+
+		if split == nil {
+			// file missing, search the next towards lower
+			sID := splitID - 1
+
+			for split == nil && above(lower, sID) {
+				split, err = s.State(ctx, sID)
+				if err != nil && !NotFound(err) {
+					return nil, err
+				}
+
+				sID--
+			}
+		}
+
+		if split == nil {
+			// still missing? search the next towards upper
+			sID := splitID + 1
+
+			for split == nil && sID < upper.SeqNum {
+				split, err = s.State(ctx, sID)
+				if err != nil && !NotFound(err) {
+					return nil, err
+				}
+
+				sID++
+			}
+		}
+
+		if split == nil {
+			// nothing between lower and upper, so upper is
+			// the first state at or after the timestamp.
+			return upper, nil
+		}
+
+		// set the new boundary
+		if timestamp.After(split.Timestamp) {
+			lower = split
+		} else {
+			upper = split
+		}
+	}
+
+	// timestamp is now between lower and upper, we want to return the upper.
+	return upper, nil
+}
+
+// adjacent reports whether there is no sequence number strictly between the two states.
+func adjacent(lower, upper *State) bool {
+	return lower.SeqNum+1 >= upper.SeqNum
+}
+
+// above reports whether the sequence number lies above the state.
+func above(lower *State, id uint64) bool {
+	return lower.SeqNum < id
+}
+`},
+	// loop form (`for cond` with break and nil-reset <-> `for {}` with early returns), loop-local variable
+	{Name: "b-findbound-loop-early-returns", File: "replication/search.go",
+		Find: `func findBound(ctx context.Context, s *stater, upper *State, timestamp time.Time) (*State, *State, error) {
+	var (
+		lowerID uint64 = 1
+		lower   *State
+		err     error
+	)
+
+	// we need to find the lower bound
+	for lower == nil {
+		lower, err = s.State(ctx, lowerID)
+
+		if err != nil && !NotFound(err) {
+			return nil, nil, err
+		}
+
+		if lower != nil && lower.Timestamp.After(timestamp) {
+			if lower.SeqNum+1 >= upper.SeqNum {
+				return lower, upper, nil // edge case if there are only two sequence numbers
+			}
+
+			// in our search for lower we found a new upper bound
+			upper = lower
+			lower = nil
+			lowerID = 1
+		}
+
+		if lower != nil {
+			break
+		}
+
+		// no lower yet, so try a higher id (binary search wise)
+		newID := (lowerID + upper.SeqNum) / 2
+		if newID <= lowerID {
+			// nothing suitable found, so upper is probably the best we can do
+			return upper, upper, nil
+		}
+		lowerID = newID
+	}
+
+	return lower, upper, nil
+}
+`,
+		Replace: `func findBound(ctx context.Context, s *stater, upper *State, timestamp time.Time) (*State, *State, error) {
+	var lowerID uint64 = 1
+
+	// we need to find the lower bound
+	for {
+		candidate, err := s.State(ctx, lowerID)
+		if err != nil && !NotFound(err) {
+			return nil, nil, err
+		}
+
+		if candidate != nil {
+			if !candidate.Timestamp.After(timestamp) {
+				return candidate, upper, nil
+			}
+
+			if candidate.SeqNum+1 >= upper.SeqNum {
+				return candidate, upper, nil // edge case if there are only two sequence numbers
+			}
+
+			// in our search for lower we found a new upper bound
+			upper = candidate
+			lowerID = 1
+		}
+
+		// no lower yet, so try a higher id (binary search wise)
+		newID := (lowerID + upper.SeqNum) / 2
+		if newID <= lowerID {
+			// nothing suitable found, so upper is probably the best we can do
+			return upper, upper, nil
+		}
+		lowerID = newID
+	}
+}
+`},
 }
